@@ -113,11 +113,22 @@ func (rw *c13RealWorld) settle() {
 
 // checkOnce: collection id (S shards) is replicated exactly once
 func (rw *c13RealWorld) checkOnce(id int64, shards int) {
-	vObserve("opens", c13StartCalls, c13AddPartCalls, rw.w.streams.opens[c13VCh(id, 0)], len(rw.errs), len(rw.w.mgr.replicateCollections))
+	// natively: the stream registrations run in their own goroutines; wait (bounded) until every
+	// shard has opened its stream before counting
+	for i := 0; i < 40; i++ {
+		opened := true
+		for s := 0; s < shards; s++ {
+			opened = opened && rw.w.streams.opened(c13VCh(id, s)) >= 1
+		}
+		if opened {
+			break
+		}
+		vQuiesce()
+	}
 	vAssert(len(rw.errs) == 0, "C13.second-notification-reports-no-error")
 	vAssert(len(rw.w.events(api.ReplicateError)) == 0, "C13.second-notification-raises-no-error-event")
 	for s := 0; s < shards; s++ {
-		vAssert(rw.w.streams.opens[c13VCh(id, s)] == 1, "C13.one-stream-per-shard-of-a-collection-notified-twice")
+		vAssert(rw.w.streams.opened(c13VCh(id, s)) == 1, "C13.one-stream-per-shard-of-a-collection-notified-twice")
 	}
 	rw.w.mgr.collectionLock.RLock()
 	_, reg := rw.w.mgr.replicateCollections[id]
